@@ -818,6 +818,14 @@ def catalogue(tier, seed):
     for n, cls in scope.small_cnf_catalogue():
         cat.append({'src': 'scope', 'n': n, 'clauses': [list(c) for c in cls]})
     cat.append({'src': 'ctor', 'clauses': [[1, 2, -3], [-2, 4], []]})
+    # sizes around typical buffer/block sizes of a writer or reader: a writer
+    # that flushes in blocks must not repeat or drop clauses
+    for m in (1023, 1024, 1025, 4097):
+        cls = []
+        for i in range(m):
+            lits = [(j + 1) if (i >> j) & 1 else -(j + 1) for j in range(13)]
+            cls.append([l for j, l in enumerate(lits) if (i + j) % 4 != 0 or j == i % 13])
+        cat.append({'src': 'scope', 'n': 13, 'clauses': cls})
     cat.append({'src': 'ctor', 'clauses': []})
     for name in FAMILY_NAMES:
         cat.append({'src': 'family', 'name': name})
